@@ -364,4 +364,93 @@ def c09_get (e : Env) (r : GetReq) (preItems : List Passkey) (o : Obs) : Option 
               | some out => if prfMatches k salts out then none else some "prf-result-is-not-the-hmac-of-the-salt-under-the-right-secret"
   | _ => none
 
+/-! ### C07 — failed or cancelled ceremonies leave the store consistent -/
+
+def storeFaultOf (t : List EvObs) : Option Nat :=
+  t.findSome? (fun ev => match ev with
+    | .save _ _ _ _ _ _ _ _ (some f) => some f
+    | .update _ _ (some f) => some f
+    | _ => none)
+
+def lookupErrorOf (t : List EvObs) : Option Nat :=
+  t.findSome? (fun ev => match ev with
+    | .find _ _ (.error f) => some f
+    | _ => none)
+
+def acceptedSaves (t : List EvObs) : List (Bytes × Bytes × Option Bytes × Option Nat) :=
+  t.filterMap (fun ev => match ev with
+    | .save c rp uh ctr _ _ _ _ none => some (c, rp, uh, ctr)
+    | _ => none)
+
+def acceptedUpdates (t : List EvObs) : List (Bytes × Option Nat) :=
+  t.filterMap (fun ev => match ev with
+    | .update c ctr none => some (c, ctr)
+    | _ => none)
+
+def keptAll (pre post : List PkSnap) : Bool := pre.all (fun q => post.any (fun p => p == q))
+
+/-- the store is the one before plus exactly the complete credential the store accepted (for the
+single-slot store: that credential alone) -/
+def plusAccepted (kind : StoreKind) (pre post : List PkSnap) (acc : Bytes × Bytes × Option Bytes × Option Nat) (rp : Bytes) : Bool :=
+  match post.find? (fun p => p.credId == acc.1) with
+  | some p =>
+    p.rpId == acc.2.1 && p.rpId == rp && p.userHandle == acc.2.2.1 && p.counter == acc.2.2.2 && p.x.length == 32
+      && (match kind with
+          | .singleSlot => post.length == 1
+          | _ => keptAll (pre.filter (fun q => q.credId != acc.1)) post && post.length == (pre.filter (fun q => q.credId != acc.1)).length + 1)
+  | none => false
+
+def c07_make (e : Env) (r : MakeReq) (o : Obs) : Option String :=
+  match o.res with
+  | .panic => some "panic"
+  | .err code =>
+    if o.store != e.pre then some "failed-registration-changed-the-store"
+    else match storeFaultOf o.trace with
+      | some f => if code != f then some "store-error-not-reported-to-the-caller" else none
+      | none => none
+  | .cancelled =>
+    if o.store == e.pre then (if (acceptedSaves o.trace).isEmpty then none else some "accepted-save-lost") else
+    (match acceptedSaves o.trace with
+     | [acc] => if plusAccepted e.kind e.pre o.store acc r.rpId then none else some "cancelled-registration-left-a-partial-or-altered-record"
+     | _ => some "cancelled-registration-changed-the-store-without-an-accepted-save")
+  | .makeOk _ _ =>
+    if (storeFaultOf o.trace).isSome then some "store-error-turned-into-success" else
+    (match acceptedSaves o.trace with
+     | [acc] => if plusAccepted e.kind e.pre o.store acc r.rpId then none else some "success-but-the-store-does-not-hold-the-new-credential"
+     | _ => some "success-without-exactly-one-accepted-save")
+  | _ => none
+
+/-- unchanged, or only the counter of one credential advanced by one (saturating at 2^32-1) -/
+def onlyCounterAdvanced (pre post : List PkSnap) : Bool :=
+  post == pre
+    || (pre.length == post.length
+        && (pre.filter (fun q => !post.any (fun p => p == q))).length == 1
+        && pre.all (fun q => match post.find? (fun p => p.credId == q.credId) with
+            | some p => p == q || (match q.counter with
+                | some c => p == { q with counter := some (min (c + 1) u32Max) }
+                | none => false)
+            | none => false))
+
+def c07_get (e : Env) (o : Obs) : Option String :=
+  match o.res with
+  | .panic => some "panic"
+  | .err code =>
+    if !onlyCounterAdvanced e.pre o.store then some "failed-authentication-changed-the-store-beyond-one-counter-step"
+    else match storeFaultOf o.trace with
+      | some f => if code != f then some "store-error-not-reported-to-the-caller" else none
+      | none => none
+  | .cancelled =>
+    if !onlyCounterAdvanced e.pre o.store then some "cancelled-authentication-changed-the-store-beyond-one-counter-step" else none
+  | .getOk cred ad _ _ _ =>
+    if (storeFaultOf o.trace).isSome then some "store-error-turned-into-success"
+    else if (lookupErrorOf o.trace).isSome then some "lookup-error-turned-into-success"
+    else if !onlyCounterAdvanced e.pre o.store then some "authentication-changed-the-store-beyond-one-counter-step"
+    else match counterIn e.pre cred with
+      | some (some _) =>
+        -- an assertion is never returned unless the store accepted its counter value
+        if (acceptedUpdates o.trace).any (fun u => u.1 == cred && u.2 == some (counterField ad)) then none
+        else some "assertion-returned-without-the-store-accepting-its-counter"
+      | _ => none
+  | _ => none
+
 end PasskeyVerif.Auth.Spec
